@@ -17,24 +17,24 @@ STATIC = {
                            "external sanitizer clause: validated with RDKit, cannot be a theorem"]},
     "C02": {"use_props": ["C16"], "extra_modules": ["SelfiesVerif.Proofs.GenEq", "SelfiesVerif.Spec.DerivationExamples"], "extra_theorems": GEN,
             "not_proved": ["C02_decoder_eq at the SMILES-string level (no spec writer); the graph-level refinement C02_graph_eq_general is proved for every result other than RecursionError (finding F2)"]},
-    "C03": {"use_props": ["C01w"], "not_proved": ["that every graph smiles_to_mol produces satisfies isParsedWF / roundTripReady is a hypothesis evaluated by the harness on the real parser's graphs (via the model), not a theorem",
-                                                   "the last step from the decoded graph to the SMILES string is C01w (writer = pre-order of the forest, atoms in index order); it is not composed with C03_roundtrip into one string-level theorem",
+    "C03": {"use_props": ["C03p", "C01w"], "not_proved": ["C03p_roundtrip_strings is the string-level statement (hypotheses left: every ring span / branch length < 16^3, nesting depth < recursion budget, input length <= 10^4300); the last step from the decoded graph to the output SMILES string is C01w (writer = pre-order of the forest, atoms in index order) and is not composed with it into one theorem about the output string",
                                                    "aromatic inputs: kekulization is covered by C05 (sound given a perfect matching), not composed here"]},
     "C04": {"use_props": ["C03"], "not_proved": ["the writer step (neighbour order of the written SMILES = adjacency order) is C01w_writer_eq_spec; C03_neighbour_order + C03_handedness give the graph-level end-to-end statement"]},
-    "C05": {"not_proved": ["completeness (succeeds whenever an assignment exists) and atom-order independence: not theorems (false in general: finding F9); decided by bounded search",
+    "C05": {"use_props": ["C03p"], "not_proved": ["completeness (succeeds whenever an assignment exists) and atom-order independence: not theorems (false in general: finding F9); decided by bounded search",
                            "unconditional soundness of find_perfect_matching is FALSE (C05_soundness_false, finding F9); proved: sound on bipartite graphs, sound whenever every augmenting path found is simple, kekulize sound given a perfect matching",
-                           "that the SMILES parser establishes PWF is a hypothesis (decidable, evaluated by the harness), not a theorem"]},
+                           ]},
     "C06": {}, "C07": {"use_props": ["C01", "C08"],
                        "not_proved": ["C07_atom_symbols_valid holds only for keys whose charge has at most 4300 digits (finding F10; proved exact: C07_atom_symbol_accepted_iff)"]},
     "C08": {"use_props": ["C18"], "not_proved": ["full-strength C08 (DecoderError only) is FALSE: RecursionError on deep nesting (finding F2); proved: C08_total_partial (ok / DecoderError / RecursionError only, every other failure branch unreachable, fuel suffices) and C08_no_recursion_error_if_shallow",
                                                   "the recursion threshold of the model (limit - 40) is approximate for the real interpreter"]},
-    "C09": {"use_props": ["C06"], "not_proved": ["C09_total: not proved; false without hypotheses (finding F2)"]},
-    "C10": {"use_props": ["C16", "C03"], "not_proved": ["C10_reencode_stable (encode(decode(encode s)) = encode s): not a theorem; needs parser(writer(g)) = g on top of C03_roundtrip; decided on the real code by the chain oracle",
+    "C09": {"use_props": ["C06"], "not_proved": ["full-strength C09 (EncoderError only) is FALSE: RecursionError on deep nesting (finding F2, C09_recursionError_witness); proved: C09_total_partial (ok / EncoderError / RecursionError only, for every str, flags and every legal choice tape; every other failure branch unreachable, all loops terminate, also downstream of a non-matching: the F9 analysis) and C09_no_recursion_error_if_shallow",
+                                                  "the choice tape must be legal (TapeOK: each entry is a member of the set it is popped from); the real set.pop() always is"]},
+    "C10": {"use_props": ["C16", "C03", "C03p", "C14e"], "not_proved": ["C10_reencode_stable (encode(decode(encode s)) = encode s): not a theorem; needs parser(writer(g)) = g on top of C03_roundtrip; decided on the real code by the chain oracle",
                                                   "C10_atom_symbol_accepted needs token length <= 10^4300 (C10_atom_symbol_length_bound_needed)"]},
     "C11": {"use_props": ["C12", "C19"], "not_proved": ["the decoder/encoder models take the table as a parameter; that the real translators read the table only through get_bonding_capacity is tied by the history correspondence and the fresh-interpreter oracle",
                                                          "cross-process determinism: observation only"]},
     "C12": {"not_proved": ["full privacy of the returned alphabet is FALSE on the unchanged tree (finding F7); C12_refines_value_map_partial excludes histories that mutate a returned alphabet"]},
-    "C13": {}, "C14": {"not_proved": ["C14_encoder_output_wf: correspondence + oracle only"]},
+    "C13": {}, "C14": {"use_props": ["C14e"]},
     "C15": {}, "C16": {"extra_modules": ["SelfiesVerif.Proofs.GenEq"], "extra_theorems": GEN},
     "C17": {"not_proved": ["'exactly the enclosing branch symbols' (C17_atom_attribution_partial proves: branch symbols at earlier, increasing positions, pushed by the enclosing calls) and 'exactly once' per atom",
                            "with compatible=True the reported token is the MODERNISED symbol, not the input symbol (C17_input_index_compat; negation example in Props/C17.lean, replayed on the real code)"]},
